@@ -11,6 +11,8 @@ api.setup_paths()
 props = [json.loads(l) for l in open("/verif/properties.jsonl")]
 na_file = "/verif/not_applicable.json"
 na = json.load(open(na_file)) if os.path.exists(na_file) else {}
+tok_file = "/verif/thorough_ok.json"
+thorough_ok = set(json.load(open(tok_file))) if os.path.exists(tok_file) else set()
 checks, not_app = [], []
 for p in props:
     pid = p["id"]
@@ -31,17 +33,20 @@ for p in props:
         "stubs listed in the evidence file (assumptions), the reference oracle in harness/%s.py. Bounds per "
         "harness are in evidence.coverage.harnesses[].bounds; outside them nothing is claimed." % pid)
     tech = getattr(mod, "TECHNIQUE", None) or "symbolic execution of the real Python code (CrossHair/z3), bounded"
-    checks.append(dict(
+    entry = dict(
         property_id=pid,
         quick_cmd="./check %s --tier quick" % pid,
-        thorough_cmd="./check %s --tier thorough" % pid,
         evidence_file="/verif/evidence/%s.json" % pid,
         replay_cmd_template="./check %s --replay {path}" % pid,
         engine="chx" if hs else "smt",
         level_claimed=dict(category=level, text=text, design_ref="DESIGN.md section 4 (%s)" % pid),
         level_note=note,
         technique=tech,
-    ))
+    )
+    if pid in thorough_ok:
+        # registered only after the thorough command ran end-to-end with exit 0 on the unchanged tree
+        entry["thorough_cmd"] = "./check %s --tier thorough" % pid
+    checks.append(entry)
 man = dict(
     version=1,
     setup_cmd="./setup.sh",
